@@ -25,10 +25,11 @@ RULE = ("pack: 0-9 (value, offset) pairs, each a Python int (edge values of the 
         "+,*,floordiv,mod(,ceildiv), raw (arbitrary AffineBinaryOpExpr shapes) and affine-shaped, operands swapped at random; "
         "non-trivial = canonicalisation changes the tree; evaluation on the box [-2,3]^3 x {0,3} and random points in +-1000. "
         "stride: rank 0-6, bounds {0,1,2,3,4,5,8} (negative for L1), strides continuing the previous (kept) dimension, zero, "
-        "negative or random, spatial strides incl. 0; non-trivial = >= 2 non-unit bounds. transform: maps with 0-4 dims / 0-3 "
+        "negative or random, spatial strides incl. 0 and negative; non-trivial = >= 2 non-unit bounds. transform: maps with 0-4 dims / 0-3 "
         "results (pure affine incl. nested constant products, non-linear, div/mod, symbols, out-of-range dims), matrices over "
         "{0,+-1,2,3,8,-4,16} incl. empty shapes, shape mismatches, access bounds {None,0,1,2,3,4,8}. attrs: 1-5 streamers, "
-        "0-6 temporal flags, 0-3 spatial dims, option subsets in any order, xDMA system type")
+        "0-6 temporal flags, 0-3 spatial dims, option subsets in any order (a c bm b and the 7 xDMA extension names of "
+        "STREAMER_OPT_MAP), xDMA system type")
 TRUSTED_BASE = [
     "Coq 8.16.1 kernel + vm_compute (no native_compute)",
     "translator/py2coq.py + translator/specs/{canonicalize_affine,stride_pattern}.py (meaning of the Python subset; views of xDSL classes)",
@@ -41,8 +42,9 @@ ASSUMPTIONS = [
     "eval totalises x // 0 and x % 0 (Z.div/Z.modulo by 0); dims/symbols are total functions of the position",
     "stride patterns: upper bounds >= 0 (refuted for two negative bounds, Example in Props/C19.v); index 0 is the innermost loop",
     "from_affine_map/to_affine_map round trip: results are pure affine (is_affine); refuted for a raw product of two dimensions",
+    "AffineTransform matrices are lists over Z: numpy int64 wrap-around is not modelled; an empty batch carries no width; AccessPattern.canonicalize is onto only for static bounds >= 1 (a bound 0 is dropped, Example in Props/C19.v); PatternCollection.canonicalize/inner_dims (map over patterns) not modelled",
     "arith.shli is modelled as shift in Z followed by truncation to w bits (a shift amount >= w gives 0; MLIR: poison)",
-    "print/parse is modelled at token level (Model/C19Text.v): xDSL's lexer is trusted; enum values spelled as string literals are not modelled; spatial dims >= 0 (the parser rejects negative ones)",
+    "print/parse is modelled at token level (Model/C19Text.v): xDSL's lexer is trusted; enum values spelled as string literals are not modelled; spatial dims >= 0 (the parser rejects negative ones); streamer options = the 11 parameterless classes of STREAMER_OPT_MAP (the L2 search reports a changed key set)",
 ]
 ALLOWED_AXIOMS: list[str] = []
 
